@@ -181,6 +181,7 @@ func TestProp(t *testing.T) {
 		runPrimedPairs(rep, env)
 		runDueCheckNotPassed(rep, env)
 		runAuthOnlyDirect(rep, env)
+		runPortSiblings(rep, env)
 	}
 	rep.Extra("wall_workload_s", time.Since(start).Seconds())
 	rep.Floor("backend_hits_authorised", 20)
@@ -918,4 +919,74 @@ func runAuthOnlyDirect(rep *vh.Report, env vh.Env) {
 	rep.Floor("auth_only_direct_202_with_session", 50)
 	rep.Floor("auth_only_direct_refused_without_session", 100)
 	rep.Floor("auth_only_direct_options_refused_without_session", 30)
+}
+
+// runPortSiblings: two upstreams whose `from` differ only in the port (one host name, two policies).
+// A session issued for one of them is bound to exactly that Host value: presented on the sibling it
+// must not reach the sibling's upstream. (Added after seeded change C01j - the host binding compared
+// on the host name alone, ignoring port and letter case - was missed: no configuration had two
+// upstreams on one host name.)
+func runPortSiblings(rep *vh.Report, env vh.Env) {
+	ps, err := sut.NewProxyStack(sut.ProxyOpts{Upstreams: []sut.UpstreamSpec{
+		{Service: "pub", From: "sib.sso.test", AllowedEmailDomains: []string{"corp.test"}},
+		{Service: "adm", From: "sib.sso.test:8443", AllowedGroups: []string{"secret-admins"}},
+		{Service: "adm2", From: "sib.sso.test:9443", AllowedEmailAddresses: []string{"root@corp.test"}},
+	}})
+	if err != nil {
+		rep.Inconclusive("port-sibling stack did not start: " + err.Error())
+		return
+	}
+	defer ps.Close()
+	hosts := []string{"sib.sso.test", "sib.sso.test:8443", "sib.sso.test:9443"}
+	n := env.Pick(240, 3000)
+	vh.ForEach(n, 0, -1, func(i int) {
+		r := vh.CaseRNG(env.Seed, "c01-portsib", i)
+		uid := sut.NewID()
+		issuedFor := hosts[r.Intn(len(hosts))]
+		presentedAt := hosts[r.Intn(len(hosts))]
+		email := "user" + uid + "@corp.test"
+		s := ps.Session(issuedFor, email, nil)
+		hostHdr := presentedAt
+		spelling := "as-configured"
+		if r.Intn(3) == 0 {
+			hostHdr, spelling = strings.ToUpper(presentedAt[:3])+presentedAt[3:], "upper-case-prefix"
+		}
+		rs := ps.Client.Do(sut.Req{Host: hostHdr, Target: "/sib/" + uid, Cookies: []string{ps.CookieName + "=" + ps.Seal(s)}})
+		rep.Eval()
+		if rs.Err != nil {
+			rep.Count("client_errors", 1)
+			return
+		}
+		hits := ps.Hits(rs.ID)
+		served := len(hits) > 0 || strings.Contains(string(rs.Body), "UPSTREAM-CONTENT-")
+		kc := map[string]interface{}{"index": i, "session_issued_for": issuedFor, "request_host": hostHdr, "status": rs.Status, "served": served}
+		switch {
+		case issuedFor == presentedAt && spelling == "as-configured":
+			// the user satisfies the rules of "pub" only; on the others the allow rules refuse
+			if served {
+				rep.Count("port_sibling_own_host_served", 1)
+				if issuedFor == "sib.sso.test:8443" {
+					// group-gated sibling, no check due: membership is "as of the last check" (see Assume): the
+					// harness minted this cookie, so nothing is to be concluded from it being honoured
+					rep.Count("port_sibling_group_gated_own_session_served_as_of_last_check", 1)
+				} else if issuedFor != "sib.sso.test" {
+					rep.Violate("c01-portsib", i, "backend-reached-unauthorised failing=allow-rules host=port-sibling", "a user outside the sibling's rules reached it with a session issued for it", kc)
+				}
+			} else {
+				rep.Count("port_sibling_own_host_refused", 1)
+			}
+		case issuedFor == presentedAt:
+			rep.Count(fmt.Sprintf("port_sibling_dontcare_other_spelling_of_own_host_served_%v", served), 1)
+		default:
+			rep.Distinct("portsib|" + issuedFor + "|" + presentedAt + "|" + spelling)
+			if served {
+				rep.Violate("c01-portsib", i, "backend-reached-unauthorised failing=host-binding host=port-sibling spelling="+spelling,
+					fmt.Sprintf("a session issued for %q reached the upstream configured for %q", issuedFor, presentedAt), kc)
+				return
+			}
+			rep.Count("port_sibling_foreign_session_refused", 1)
+		}
+	})
+	rep.Floor("port_sibling_foreign_session_refused", 60)
+	rep.Floor("port_sibling_own_host_served", 10)
 }
